@@ -117,7 +117,7 @@ impl HeuristicSolutionProcessing for VicinityClustering {
                     cluster.into_iter().fold((cluster_arrival, Vec::new()), |(arrival, mut activities), info| {
                         // NOTE assumption: no waiting time possible in between of clustered jobs
                         let job = info.job.to_single().clone();
-                        let place_idx = 0;
+                        let place_idx = info.place_idx;
                         let place = &job.places[place_idx];
 
                         let backward = match config.visiting {
